@@ -2649,6 +2649,58 @@ impl Melda {
     }
 }
 
+/// Verification hooks (compiled only with `--cfg melda_verif`): read-only accessors
+#[cfg(melda_verif)]
+impl Melda {
+    /// Status of every known delta block
+    pub fn verif_delta_status(&self) -> BTreeMap<String, &'static str> {
+        self.deltas
+            .read()
+            .unwrap()
+            .iter()
+            .map(|(k, d)| {
+                let s = match d.read().unwrap().status {
+                    Status::Pending => "pending",
+                    Status::Ready => "ready",
+                    Status::Applied => "applied",
+                    Status::Blocked => "blocked",
+                };
+                (k.to_string(), s)
+            })
+            .collect()
+    }
+
+    /// Dump of a revision tree: (revision, parent, staging), sorted
+    pub fn verif_tree_dump(&self, uuid: &str) -> Option<Vec<(String, Option<String>, bool)>> {
+        let docs = self.documents.read().unwrap();
+        let rt = docs.get(uuid)?.lock().unwrap();
+        let mut v: Vec<(String, Option<String>, bool)> = rt
+            .get_revisions()
+            .iter()
+            .map(|(r, e)| {
+                (
+                    r.to_string(),
+                    e.get_parent().as_ref().map(|p| p.to_string()),
+                    e.is_staging(),
+                )
+            })
+            .collect();
+        v.sort();
+        Some(v)
+    }
+
+    /// Applied packs
+    pub fn verif_applied_packs(&self) -> Vec<String> {
+        self.data
+            .read()
+            .unwrap()
+            .applied_packs()
+            .iter()
+            .cloned()
+            .collect()
+    }
+}
+
 #[cfg(test)]
 mod tests {
 
